@@ -87,6 +87,8 @@ func main() {
 		runC01(cw, tier, seed)
 	case "c14":
 		runC14(cw, tier, seed)
+	case "c13":
+		runC13(cw, tier, seed)
 	case "c07":
 		runC07(cw, tier, seed)
 	case "c11":
